@@ -1,0 +1,18 @@
+//go:build verif
+
+package imapserver
+
+import "github.com/emersion/go-imap/v2"
+
+// VerifState returns the connection state. It is only meaningful when called from inside a
+// Session method (the command goroutine owns the state). Build tag verif only.
+func (c *Conn) VerifState() imap.ConnState {
+	return c.state
+}
+
+// VerifNumConns returns the number of connections the server currently tracks.
+func (s *Server) VerifNumConns() int {
+	s.mutex.Lock()
+	defer s.mutex.Unlock()
+	return len(s.conns)
+}
